@@ -485,7 +485,7 @@ pub fn directives(root: &SyntaxNode) -> Vec<Value> {
 }
 
 /// Output lines for the unit-scaling relation: indentation, the text after it, exemption.
-pub fn unit_lines(text: &str, src: &Source) -> Vec<Value> {
+pub fn unit_lines(text: &str, src: &Source, copied: &std::collections::BTreeSet<String>) -> Vec<Value> {
     let spans = multiline_spans(src);
     text.split('\n')
         .enumerate()
@@ -494,8 +494,82 @@ pub fn unit_lines(text: &str, src: &Source) -> Vec<Value> {
             let ind = l.bytes().take_while(|b| *b == b' ').count();
             let ex = spans.iter().any(|s| {
                 (s["a"].as_u64().unwrap() as usize) < ln && ln <= s["b"].as_u64().unwrap() as usize
-            });
+            }) || (!l.is_empty() && copied.contains(l.trim_end()));
             json!({"ind": ind, "rest": &l[ind..], "ex": ex})
+        })
+        .collect()
+}
+
+// ---------------------------------------------------------------------------------------------
+// Attr.tla conformance: what the real AttrStore marked, node by node
+
+/// For every inner node that has a comment child: the classes of its children and the (1-based) indices of the
+/// children whose `is_format_disabled` attribute is set.
+pub fn attr_nodes(root: &SyntaxNode) -> Vec<Value> {
+    let attrs = AttrStore::new(root);
+    let mut out = vec![];
+    fn rec(n: &SyntaxNode, attrs: &AttrStore, out: &mut Vec<Value>) {
+        if n.children().len() == 0 {
+            return;
+        }
+        if n.children().any(|c| is_comment(c.kind())) {
+            let kids: Vec<&str> = n
+                .children()
+                .map(|c| match c.kind() {
+                    k if is_comment(k) => {
+                        if c.text().contains("@typstyle off") {
+                            "doff"
+                        } else {
+                            "cmt"
+                        }
+                    }
+                    SyntaxKind::Space => "sp",
+                    SyntaxKind::Hash => "hash",
+                    _ => "node",
+                })
+                .collect();
+            let marked: Vec<usize> =
+                n.children().enumerate().filter(|(_, c)| attrs.is_format_disabled(c)).map(|(i, _)| i + 1).collect();
+            out.push(json!({"k": kind_name(n.kind()), "kids": kids, "marked": marked, "commented": attrs.has_comment(n)}));
+        }
+        for c in n.children() {
+            rec(c, attrs, out);
+        }
+    }
+    rec(root, &attrs, &mut out);
+    out
+}
+
+/// Continuation lines (lines 2..n, right-trimmed) of every multi-line node that `@typstyle off` disables in the
+/// given (input) tree: these lines are copied verbatim into the output, indentation included.
+pub fn disabled_continuation_lines(root: &SyntaxNode) -> std::collections::BTreeSet<String> {
+    let attrs = AttrStore::new(root);
+    let mut out = std::collections::BTreeSet::new();
+    fn rec(n: &SyntaxNode, attrs: &AttrStore, out: &mut std::collections::BTreeSet<String>) {
+        let body_disabled = n
+            .cast::<ast::CodeBlock>()
+            .is_some_and(|cb| attrs.is_format_disabled(cb.body().to_untyped()));
+        if (attrs.is_format_disabled(n) && !is_comment(n.kind())) || body_disabled {
+            let t = node_text(n);
+            for l in t.split('\n').skip(1) {
+                out.insert(l.trim_end().to_string());
+            }
+        }
+        for c in n.children() {
+            rec(c, attrs, out);
+        }
+    }
+    rec(root, &attrs, &mut out);
+    out
+}
+
+/// Like `lines`, plus `cp`: the line equals a continuation line of a disabled node of the input.
+pub fn lines_with_copied(text: &str, copied: &std::collections::BTreeSet<String>) -> Vec<Value> {
+    text.split('\n')
+        .map(|l| {
+            let ind = l.bytes().take_while(|b| *b == b' ').count();
+            let last = l.chars().last().map(|c| c as u32).unwrap_or(0);
+            json!({"n": l.len(), "ind": ind, "last": last, "cp": !l.is_empty() && copied.contains(l.trim_end())})
         })
         .collect()
 }
